@@ -957,7 +957,6 @@ func c13GenSwissquote(r *RNG) *c13Stmt {
 	syms := []string{"VWRL", "NESN", "AAPL", "CSSMI", "Ω3"}
 	stamp := func(z int) string { return dmyDash(z) + fmt.Sprintf(" %02d:17:42", r.Intn(24)) }
 	num := func(v decimal.Decimal) string { return c13Num(r, v, "'", tags) }
-	var altAt []int
 	for i := n - 1; i >= 0; i-- {
 		cur := Pick(r, c13Currencies)
 		saldo := num(c13Amount(r, c13AmtOpts{MaxDecimals: 2}, map[string]bool{}))
@@ -983,9 +982,7 @@ func c13GenSwissquote(r *RNG) *c13Stmt {
 			recs = append(recs, []string{stamp(days[i]), fmt.Sprint(r.Range(10000000, 99999999)), ty, sym, c13Text(r, to, tags), c13Text(r, to, tags), q.String(), num(p), num(f), "0.00", num(net), saldo, cur})
 			st.Items = append(st.Items, c13Item{Kind: 'b', Day: days[i], Effs: []c13Eff{{sym, qeff}, {cur, net}}})
 			if ty == "Verkauf" && gross.IsZero() {
-				// the importer tells sale from purchase by the sign of the proceeds: a sale without proceeds is booked as a purchase
-				altAt = append(altAt, len(st.Items)-1)
-				tags["zero-proceeds-sale"] = true
+				tags["zero-proceeds-sale"] = true // the importer must go by the row type, not by the sign of the proceeds
 			}
 			tags["trade"] = true
 		case k < 42: // forex pair: two rows, one transaction (on the second row's date)
@@ -1022,15 +1019,6 @@ func c13GenSwissquote(r *RNG) *c13Stmt {
 			recs = append(recs, []string{stamp(days[i]), "00000000", ty, "", "", "", "1.0", num(net.Abs()), "0.00", "0.00", num(net), saldo, cur})
 			st.Items = append(st.Items, c13Item{Kind: 'b', Day: days[i], Effs: []c13Eff{{cur, net}}})
 		}
-	}
-	if len(altAt) > 0 {
-		st.Alt = append([]c13Item{}, st.Items...)
-		for _, k := range altAt {
-			it := st.Alt[k]
-			it.Effs = []c13Eff{{it.Effs[0].Com, it.Effs[0].Qty.Neg()}, it.Effs[1]}
-			st.Alt[k] = it
-		}
-		st.AltKey = "C13-swissquote-sale-without-proceeds-booked-as-purchase"
 	}
 	st.File = []byte(c13Csv(r, recs, ';', c13CsvOptsFor(r, c13Dialects[st.Imp], tags)))
 	st.Tags = c13Tags(tags)
